@@ -529,17 +529,143 @@ def sleep(seconds):
     S().block_until(lambda: False, seconds, "sleep")
 
 
+class Semaphore(object):
+    def __init__(self, value=1):
+        if value < 0:
+            raise ValueError("semaphore initial value must be >= 0")
+        self._cond = Condition(Lock())
+        self._value = value
+
+    def acquire(self, blocking=True, timeout=None):
+        with self._cond:
+            if not blocking:
+                if self._value == 0:
+                    return False
+            elif not self._cond.wait_for(lambda: self._value > 0, timeout):
+                return False
+            self._value -= 1
+            return True
+
+    __enter__ = acquire
+
+    def release(self, n=1):
+        with self._cond:
+            self._value += n
+            self._cond.notify(n)
+
+    def __exit__(self, *a):
+        self.release()
+
+
+class BoundedSemaphore(Semaphore):
+    def __init__(self, value=1):
+        Semaphore.__init__(self, value)
+        self._initial = value
+
+    def release(self, n=1):
+        with self._cond:
+            if self._value + n > self._initial:
+                raise ValueError("Semaphore released too many times")
+            self._value += n
+            self._cond.notify(n)
+
+
+class Timer(SimThread):
+    def __init__(self, interval, function, args=None, kwargs=None):
+        SimThread.__init__(self, target=self._run_timer)
+        self.interval, self.function = interval, function
+        self.args, self.kwargs = args or [], kwargs or {}
+        self.finished = Event()
+
+    def cancel(self):
+        self.finished.set()
+
+    def _run_timer(self):
+        self.finished.wait(self.interval)
+        if not self.finished.is_set():
+            self.function(*self.args, **self.kwargs)
+        self.finished.set()
+
+
 def make_threading_facade():
+    import threading as _real
+
     m = types.ModuleType("simthreading")
     m.Lock = Lock
     m.RLock = RLock
     m.Condition = Condition
     m.Event = Event
+    m.Semaphore = Semaphore
+    m.BoundedSemaphore = BoundedSemaphore
     m.Thread = SimThread
+    m.Timer = Timer
+    m.local = _real.local       # managed threads are real threads underneath
     m.current_thread = current_thread
     m.currentThread = current_thread
     m.get_ident = lambda: S().me().tid
+    m.TIMEOUT_MAX = _real.TIMEOUT_MAX
     return m
+
+
+def queue_item_id(item):
+    if isinstance(item, tuple) and len(item) == 4:
+        return getattr(item[0], "task_id", "task?")
+    return "sentinel"
+
+
+def _instrument_queue(simqueue):
+    """Queue that emits acceptance/removal events atomically with the operation
+    (installed before threadpool.py is executed: a class derived from
+    queue.Queue in there inherits it)"""
+    base = simqueue.Queue
+
+    def who():
+        s = S()
+        return s, (s.me().name if s is not None and s.me() is not None else "?")
+
+    class IQueue(base):
+        def _put(self, item):
+            s, name = who()
+            if s is not None:
+                s.emit("q-put", item=queue_item_id(item), thread=name)
+            base._put(self, item)
+
+        def _get(self):
+            item = base._get(self)
+            s, name = who()
+            if s is not None:
+                s.emit("q-take", item=queue_item_id(item), thread=name)
+            return item
+
+        def put(self, item, block=True, timeout=None):
+            s, name = who()
+            if s is None:
+                return base.put(self, item, block, timeout)
+            s.emit("q-put-call", thread=name)
+            try:
+                base.put(self, item, block, timeout)
+            except BaseException as ex:
+                if not isinstance(ex, Abort):
+                    s.emit("q-put-return", thread=name, ok=False)
+                raise
+            s.emit("q-put-return", thread=name, ok=True)
+
+        def get(self, block=True, timeout=None):
+            s, name = who()
+            if s is None:
+                return base.get(self, block, timeout)
+            s.emit("q-get-call", thread=name)
+            try:
+                item = base.get(self, block, timeout)
+            except BaseException as ex:
+                if not isinstance(ex, Abort):
+                    s.emit("q-get-return", thread=name, item="empty")
+                raise
+            s.emit("q-get-return", thread=name, item=queue_item_id(item))
+            return item
+
+    IQueue.__name__ = "Queue"
+    simqueue.Queue = IQueue
 
 
 _LOADED = {}
@@ -547,9 +673,12 @@ _LOADED = {}
 
 def load_sim_modules(repo=None):
     """
-    Loads /repo's threadpool.py under a private name with its `threading` and
-    `queue` globals rebound to the simulated ones (queue = a fresh copy of the
-    standard library's queue.py over simulated threading and virtual time).
+    Loads /repo's threadpool.py under a private name over simulated
+    `threading` and `queue` modules (queue = a fresh copy of the standard
+    library's queue.py over simulated threading and virtual time, with an
+    instrumented Queue).  The simulated modules are in place while the file is
+    executed, so that classes derived from queue.Queue or threading.Thread in
+    there are simulated too.
     """
     if repo is None:
         # the copy of jsonrpclib that is actually imported (normally /repo)
@@ -559,6 +688,7 @@ def load_sim_modules(repo=None):
     if repo in _LOADED:
         return _LOADED[repo]
     import queue as _q
+    import sys as _sys
 
     simthreading = make_threading_facade()
     spec = importlib.util.spec_from_file_location("verif_simqueue", _q.__file__)
@@ -566,10 +696,21 @@ def load_sim_modules(repo=None):
     spec.loader.exec_module(simqueue)
     simqueue.threading = simthreading
     simqueue.time = lambda: S().clock
+    _instrument_queue(simqueue)
     spec = importlib.util.spec_from_file_location(
         "verif_sim_threadpool", repo + "/jsonrpclib/threadpool.py")
     tp = importlib.util.module_from_spec(spec)
-    spec.loader.exec_module(tp)
+    saved = dict((k, _sys.modules.get(k)) for k in ("threading", "queue"))
+    _sys.modules["threading"] = simthreading
+    _sys.modules["queue"] = simqueue
+    try:
+        spec.loader.exec_module(tp)
+    finally:
+        for k, v in saved.items():
+            if v is None:
+                _sys.modules.pop(k, None)
+            else:
+                _sys.modules[k] = v
     tp.threading = simthreading
     tp.queue = simqueue
     _LOADED[repo] = (simthreading, simqueue, tp)
